@@ -22,7 +22,8 @@ NONDET = ('std::time::SystemTime::now', 'std::time::Instant::now', 'chrono::', '
           'std::collections::hash::map::HashMap::into_iter', 'std::collections::hash::set::HashSet::iter',
           'std::collections::hash::map::HashMap::iter_mut', 'std::collections::hash::map::HashMap::values_mut',
           'std::collections::hash::map::HashMap::into_keys', 'std::collections::hash::map::HashMap::into_values',
-          'tokio::time::Instant::now')
+          'tokio::time::Instant::now', 'std::collections::hash::map::HashMap::retain', 'std::collections::hash::map::HashMap::extract_if',
+          'std::collections::hash::set::HashSet::retain', 'std::collections::hash::set::HashSet::drain', 'std::collections::hash::set::HashSet::into_iter')
 # process-wide memo: what the first call computed is what every later call gets, so the archive written for one set of options
 # depends on what the process did before (two archives with different levels from one service)
 PROCESS_STATE = ('std::sync::once_lock::OnceLock', 'std::sync::lazy_lock::LazyLock', 'std::sync::once::Once::call_once', 'once_cell::', 'lazy_static::',
